@@ -22,13 +22,25 @@ def make_case(rng):
         if f[1] == "file":
             f[2] = re.sub(r"[ \t 　 ]+retry[ \t 　 ]+\d+[ \t 　 ]+backoff[ \t 　 ]+\S+", "", f[2])
     c["judge_before"] = True
+    # halts across include boundaries (D18): a halt inside an included file, or in the main file before the include line
+    if len(c["files"]) > 1 and rng.random() < 0.5:
+        if rng.random() < 0.5:
+            f = rng.choice(c["files"][1:])
+            f[2] = rng.choice(["halt\n\n" + f[2], f[2] + ("" if f[2].endswith("\n") or not f[2] else "\n") + "\nhalt\n"])
+        else:
+            c["files"][0][2] = "halt\n\n" + c["files"][0][2]
     # some failing commands
     c["sys"] = [a if rng.random() < 0.7 else ["exit", 3, "partial", "bad"] for a in c["sys"]]
     return c
 
 
 def corpus():
-    return []
+    # witnesses of D18 (fixed): records a run never reaches because of a halt in another file must keep their expectation
+    base = {"main": "main.slt", "answers": [["rows", "I", [["2"]]]] * 4, "default_answer": ["rows", "I", [["2"]]], "sys": [], "sys_default": ["exit", 0, "", ""],
+            "sep": " ", "strict_cols": False, "judge_before": True}
+    stale = "query I\nselect 2\n----\nstale\n"
+    return [dict(base, files=[["main.slt", "file", "include inc/a.slt\n\n" + stale], ["inc/a.slt", "file", "halt\n"]], meta={"src": "witness D18 halt inside include"}),
+            dict(base, files=[["main.slt", "file", "halt\n\ninclude inc/a.slt\n"], ["inc/a.slt", "file", stale]], meta={"src": "witness D18 halt before include"})]
 
 
 def generate(rng, tier):
